@@ -233,9 +233,12 @@ func (dq *Deque[T]) waitPushAfter(ctx context.Context, it T, afterGetter func() 
 	}
 
 	cond := dq.updates
-	// If the context terminates, wake the waiter.
+	// If the context terminates, wake the waiter. The broadcast
+	// happens under the lock: otherwise it can fall between the
+	// waiter's check of the context and its registration in
+	// cond.Wait, and the waiter would sleep with a dead context.
 	ctx, cancel := context.WithCancel(ctx)
-	go func() { <-ctx.Done(); cond.Broadcast() }()
+	go func() { <-ctx.Done(); dq.mtx.Lock(); cond.Broadcast(); dq.mtx.Unlock() }()
 	defer cancel()
 
 	for dq.tracker.cap() <= dq.tracker.len() {
@@ -455,9 +458,10 @@ func (it *element[T]) wait(ctx context.Context, direction dqDirection) error {
 		cond = it.list.updates
 	}
 
-	// If the context terminates, wake the waiter.
+	// If the context terminates, wake the waiter (under the lock,
+	// see waitPushAfter).
 	ctx, cancel := context.WithCancel(ctx)
-	go func() { <-ctx.Done(); cond.Broadcast() }()
+	go func() { <-ctx.Done(); it.list.mtx.Lock(); cond.Broadcast(); it.list.mtx.Unlock() }()
 	defer cancel()
 
 	next := it.getNextOrPrevious(direction)
